@@ -23,6 +23,13 @@ CLAIMED["C09"] = dict(
     note="Trusted: R1 interpreter/arc geometry (self-tested); inputs on a 1/8 lattice; arcs with distinct end points closer than 1e-7 are excluded as ill-conditioned (their meaning is discontinuous under the rewrites' 1e-9 snapping).",
     design="DESIGN.md 3/C09",
 )
+CLAIMED["C12"] = dict(
+    level="exploration",
+    technique="bounded-exhaustive product lattice over arc parameters vs independent F.6.5 centre parametrisation",
+    text="Every arc of a product lattice (7x7 radii incl. zero/negative/tiny/huge, 10 rotations, 4 flag pairs, end-point lattice incl. the start, boundary families where the radii exactly/barely fit) is converted by arc_to_cubic and each cubic is sampled and mapped into the unit-circle frame of the independently computed corrected ellipse. Exhaustive over the lattice; a bounded claim about a continuous domain.",
+    note="Trusted: R1 arc geometry (F.6.5/F.6.6) and the 17-sample-per-cubic discretisation; total-angle check skipped within 1e-6 of 0 / 2pi.",
+    design="DESIGN.md 3/C12",
+)
 NOT_YET = "check not built yet in this session (design in DESIGN.md section 3); no claim is made"
 
 checks = []
